@@ -18,7 +18,7 @@ impl Iterator for BitsIter {
                 let pos = self.pos;
                 self.pos <<= 1;
                 return Some(pos);
-            } else if self.pos > self.bits {
+            } else if self.pos > self.bits || self.pos == 0 {
                 return None;
             }
             self.pos <<= 1;
